@@ -163,12 +163,15 @@ CHECKS = {
    ref="DESIGN.md 7 C16"),
  "C17": dict(
    text="Theorems (closed): C17_match_json_fields - the object of a match holds, under the documented keys, exactly the in-memory match (filename, matchNumber, offset/line/column as {start,end}, "
-        "value, variables nested for named loops) and `replacement` exactly when the match has one; C17_one_object_per_match. The model's compact and tab-indented renderers (Go's escaping rules) "
-        "are compared byte for byte with Json()/FormattedJson() on ASCII texts. Tie and validity: both renderings must parse with Python's json, be equal documents and decode to the in-memory "
-        "matches, for result lists {empty, one, many} x {find, replace} x {flat, nested} over texts with quotes, backslashes, control characters, <>&, non-ASCII and invalid UTF-8.",
-   note="PARTIAL: the round-trip theorem parse(compact j) = parse(indent j) = j for a verified JSON parser is not proved; validity of the rendering is decided by the correspondence (Python json). "
-        "encoding/json itself (invalid UTF-8 -> U+FFFD, HTML escaping) is modelled, not verified. Repaired: 03d01b5 (Matches.Json panicked on every call).",
-   technique="Coq proof (document model: fields of the rendered object) + differential validation of both renderings against an independent JSON implementation",
+        "value, variables nested for named loops, replacement exactly when present); C17_one_object_per_match; C17_compact_parses_back / C17_indented_parses_back - a plain recursive-descent JSON "
+        "reader (objects, arrays, strings with escapes, integers, blanks between tokens; raw control characters rejected) reads the compact and the tab-indented rendering of EVERY document back as "
+        "exactly that document (any nesting, quotes, backslashes, control characters, <>&, bytes >= 0x80), so both renderings are valid and are the same document; C17_any_layout_parses_back. "
+        "Tie: Json() and FormattedJson() of the implementation must parse (Python json), be equal documents and decode to the in-memory matches on result lists {empty, one, many} x {find, replace} "
+        "x {flat, nested variables} over hostile texts; byte-for-byte comparison with the model's renderers on ASCII texts.",
+   note="encoding/json itself is modelled by the two renderers of Model/Json.v (validated byte for byte on ASCII texts; on invalid UTF-8 Go writes U+FFFD, which is outside the model: there validity "
+        "and decoding are decided by Python json only). The JSON reader of the theorem is the yardstick for validity; it is deliberately small (no floats, no exponent, no true/false/null: result "
+        "documents contain none). Repaired: 03d01b5 (Json() panicked on every call).",
+   technique="Coq proof (document model; print/parse round trip of both renderers via a layout-independent rendering relation) + differential validation against an independent JSON implementation",
    ref="DESIGN.md 7 C17"),
  "C18": dict(
    text="Theorems (closed): C18_cli_table - on the FULL cross product of -com/-src x -files x -json x -formatted-json x -json-file x -formatted-json-file x mode {unset,NEW,NOTHING,OVERWRITE,bogus} "
